@@ -255,7 +255,7 @@ prop("C11", "exploration",
      "decoders and to the reader's receive step with calls outstanding; buffers have cap == len so that any read "
      "beyond the received data panics; oracle: no panic, termination, no addressed call left without result or error.",
      "Trusted: the hook VerifReceive registers calls exactly as send() does; duplicate results are drained as a waiting "
-     "caller would. Inputs declaring a compressed block > 64 MiB are skipped and counted (resource exhaustion is "
+     "caller would. Inputs declaring a compressed block > 2 MiB (C15: 64 MiB) are skipped and counted (resource exhaustion is "
      "outside the statement).",
      [
          {"test": "TestC11_ClientDecoders", "quick": {"checks": 3000, "shards": 4, "timeout": 300},
